@@ -217,7 +217,7 @@ func runValBatch(c *core.Ctx, reqs []valReq, perCase time.Duration, sink func(in
 	}
 }
 
-const adversarySDL = `type Query { q: Query i: Int l: [Query] j(a: Int): Int pet: Pet } type Subscription { q: Query i: Int } type Mutation { q: Query }
+const adversarySDL = `type Query { q: Query i: Int l: [Query] j(a: Int): Int pet: Pet o(a: In): Int any(x: Any): Int } scalar Any input In { a: In v: Int l: [In] w: Int } type Subscription { q: Query i: Int } type Mutation { q: Query }
 interface Pet { owner: Query } type Dog implements Pet { owner: Query } type Cat implements Pet { owner: Query }`
 
 // adversarial, size-parametrised families
@@ -302,17 +302,128 @@ func adversaryDoc(family string, n int) string {
 		}
 	case "nested-inline":
 		b.WriteString("{ " + rep("... on Query { ", n) + "i" + rep(" }", n) + " }")
+	case "deep-object-args-equal", "deep-object-args-differ", "deep-object-args-reordered":
+		// the argument comparison of the merge rule and the literal checks recurse into values
+		d := 3 * n
+		leaf := [2]string{"{v: 1, w: 2}", "{v: 1, w: 2}"}
+		if family == "deep-object-args-differ" {
+			leaf[1] = "{v: 2, w: 2}"
+		}
+		if family == "deep-object-args-reordered" {
+			leaf[1] = "{w: 2, v: 1}"
+		}
+		b.WriteString("{ o(a: " + rep("{a: ", d) + leaf[0] + rep("}", d) + ") o(a: " + rep("{a: ", d) + leaf[1] + rep("}", d) + ") }")
+	case "deep-list-args-equal":
+		d := 3 * n
+		v := rep("[", d) + "1, 2" + rep("]", d)
+		b.WriteString("{ any(x: " + v + ") any(x: " + v + ") }")
+	case "deep-object-lists-equal":
+		d := 2 * n
+		v := rep("{l: [", d) + "{v: 1}" + rep("]}", d)
+		b.WriteString("{ o(a: " + v + ") o(a: " + v + ") o(a: " + v + ") }")
+	case "deep-default-value":
+		d := 3 * n
+		b.WriteString("query($x: In = " + rep("{a: ", d) + "{v: 1}" + rep("}", d) + ", $y: Any = " + rep("[", d) + "$x" + rep("]", d) + ") { o(a: $x) any(x: $y) }")
+	case "wide-object-args":
+		var f strings.Builder
+		for i := 0; i < 10*n; i++ {
+			fmt.Fprintf(&f, "k%d: %d, ", i, i)
+		}
+		b.WriteString("{ any(x: {" + f.String() + "}) any(x: {" + f.String() + "}) }")
 	case "undefined-everywhere":
 		b.WriteString("query($a: Nope, $b: [In!]) { nope(x: $zz, y: {a: [$b, {c: $q}]}) @nope(a: $a) { ...Missing ... on Ghost { x @skip } } }" + rep(" ", n))
 	}
 	return b.String()
 }
 
+// adversarial type systems, size-parametrised: every one must come back from
+// LoadSchema (loaded or rejected) without a crash and without the watchdog firing
+func adversarySchema(family string, n int) string {
+	var b strings.Builder
+	rep := strings.Repeat
+	join := func(from, to int, prefix string) string {
+		var xs []string
+		for i := from; i <= to; i++ {
+			xs = append(xs, fmt.Sprintf("%s%d", prefix, i))
+		}
+		return strings.Join(xs, " & ")
+	}
+	switch family {
+	case "iface-chain":
+		for i := 0; i < n; i++ {
+			fmt.Fprintf(&b, "interface I%d implements %s { x: Int } ", i, join(i+1, n, "I"))
+		}
+		fmt.Fprintf(&b, "interface I%d { x: Int } type Query implements %s { x: Int }", n, join(0, n, "I"))
+	case "iface-cycle-behind-type":
+		// the cycle members sort after the type that declares them all
+		fmt.Fprintf(&b, "type A0 implements %s { x: Int } ", join(0, n-1, "N"))
+		for i := 0; i < n; i++ {
+			fmt.Fprintf(&b, "interface N%d implements N%d { x: Int } ", i, (i+1)%n)
+		}
+		b.WriteString("type Query { a: A0 }")
+	case "iface-cycle-declared":
+		for i := 0; i < n; i++ {
+			fmt.Fprintf(&b, "interface N%d implements %s { x: Int } ", i, join(0, n-1, "N"))
+		}
+		fmt.Fprintf(&b, "type A0 implements %s { x: Int } type Query { a: A0 }", join(0, n-1, "N"))
+	case "iface-self":
+		b.WriteString("interface Node implements Node { x: Int } type A implements Node { x: Int } type Query { a: A }" + rep(" ", n))
+	case "input-cycle-nonnull":
+		for i := 0; i < n; i++ {
+			fmt.Fprintf(&b, "input In%d { next: In%d! v: Int } ", i, (i+1)%n)
+		}
+		b.WriteString("type Query { f(x: In0): Int }")
+	case "input-cycle-default":
+		for i := 0; i < n; i++ {
+			fmt.Fprintf(&b, "input In%d { next: In%d = {} v: Int } ", i, (i+1)%n)
+		}
+		b.WriteString("type Query { f(x: In0 = {}): Int }")
+	case "deep-list-type":
+		d := 3 * n
+		fmt.Fprintf(&b, "type Query { f(x: %sInt%s = %s1%s): %sInt!%s }", rep("[", d), rep("]", d), rep("[", d), rep("]", d), rep("[", d), rep("]!", d))
+	case "deep-default-object":
+		d := 3 * n
+		fmt.Fprintf(&b, "input In { a: In v: Int } type Query { f(x: In = %s{v: 1}%s): Int }", rep("{a: ", d), rep("}", d))
+	case "union-many":
+		b.WriteString("union U = ")
+		for i := 0; i < 10*n; i++ {
+			if i > 0 {
+				b.WriteString(" | ")
+			}
+			fmt.Fprintf(&b, "T%d", i)
+		}
+		for i := 0; i < 10*n; i++ {
+			fmt.Fprintf(&b, " type T%d { u: U }", i)
+		}
+		b.WriteString(" type Query { u: U }")
+	case "directive-cycle":
+		for i := 0; i < n; i++ {
+			fmt.Fprintf(&b, "directive @d%d(x: Int @d%d) on ARGUMENT_DEFINITION ", i, (i+1)%n)
+		}
+		b.WriteString("type Query { f(a: Int @d0): Int }")
+	case "extension-chain":
+		b.WriteString("type Query { f0: Int }")
+		for i := 1; i <= 10*n; i++ {
+			fmt.Fprintf(&b, " extend type Query { f%d: Int }", i)
+		}
+	case "extension-of-missing":
+		for i := 0; i < n; i++ {
+			fmt.Fprintf(&b, "extend type Ghost%d { f: Int } extend interface Spook%d { f: Int } extend union U%d = Ghost%d extend enum E%d { A } extend input In%d { a: Int } extend scalar S%d @specifiedBy(url: \"u\") ", i, i, i, i, i, i, i)
+		}
+		b.WriteString("type Query { f: Int }")
+	}
+	return b.String()
+}
+
+var adversarySchemaFamilies = []string{"iface-chain", "iface-cycle-behind-type", "iface-cycle-declared", "iface-self", "input-cycle-nonnull", "input-cycle-default", "deep-list-type", "deep-default-object",
+	"union-many", "directive-cycle", "extension-chain", "extension-of-missing"}
+
 var adversaryFamilies = []string{"fanout-introspection", "fanout-field", "fanout-top", "fanout-subscription", "fanout-fields", "cycle-through-fields", "mutual-overlap", "exclusive-then-shared", "shared-then-exclusive", "self-cycle",
-	"deep-alias", "wide-same-name", "wide-conflicts", "many-spreads-same", "many-fragments-together", "nested-inline", "undefined-everywhere"}
+	"deep-alias", "wide-same-name", "wide-conflicts", "many-spreads-same", "many-fragments-together", "nested-inline", "undefined-everywhere",
+	"deep-object-args-equal", "deep-object-args-differ", "deep-object-args-reordered", "deep-list-args-equal", "deep-object-lists-equal", "deep-default-value", "wide-object-args"}
 
 func checkC02(c *core.Ctx) {
-	c.Rule = "cases are (a) LoadSchema on generated valid and faulty type systems, hand-written corner cases and grammar-directed type-blind SDL; (b) Validate on (schema, document) pairs: typed valid documents, documents with injected faults, grammar-directed type-blind documents over the schema's vocabulary (unknown types, undefined and unused variables, variables inside input objects inside unreachable fragments, unused and mutually recursive fragments, wrong value shapes, every directive everywhere); (c) seventeen adversarial families at four sizes (fragment fan-out under introspection / fields / top level / subscriptions, cycles through fields, fragments spreading each other while overlapping, deep aliases, wide selection sets with one response name). Everything runs in a child process: a crash or 20 s of silence is attributed to its input. Returned cases carry the hook-H2 recursion step counters and Total2_Trace checks them against polynomial bounds in the document size. Non-trivial = documents with at least one fragment or one error; distinct by texts"
+	c.Rule = "cases are (a) LoadSchema on generated valid and faulty type systems, hand-written corner cases and grammar-directed type-blind SDL; (b) Validate on (schema, document) pairs: typed valid documents, documents with injected faults, grammar-directed type-blind documents over the schema's vocabulary (unknown types, undefined and unused variables, variables inside input objects inside unreachable fragments, unused and mutually recursive fragments, wrong value shapes, every directive everywhere); (c) twenty-four adversarial document families and twelve adversarial type-system families (interface chains and cycles reached from a type that sorts first, input-object cycles through non-null fields and defaults, deep list types and default values, wide unions, directive cycles, long extension chains, extensions of missing types) at four sizes (fragment fan-out under introspection / fields / top level / subscriptions, cycles through fields, fragments spreading each other while overlapping, deep aliases, wide selection sets with one response name). Everything runs in a child process: a crash or 20 s of silence is attributed to its input. Returned cases carry the hook-H2 recursion step counters and Total2_Trace checks them against polynomial bounds in the document size. Non-trivial = documents with at least one fragment or one error; distinct by texts"
 	c.Assumptions = []string{
 		"termination / absence of panics is an observation of the Go runtime (child process + inactivity watchdog); the polynomial bound is stated on deterministic step counters (hook H2) with a hard budget of 30 million steps per site, not on seconds",
 		"FragTraversal.tla: the Global discipline is linear on every graph of 3 fragments with at most two spreads each; OnPath is exponential on the fan-out family (model-checked)",
@@ -396,6 +507,11 @@ func checkC02(c *core.Ctx) {
 	for _, f := range adversaryFamilies {
 		for _, n := range sizes {
 			reqs = append(reqs, valReq{Kind: "validate", SDL: adversarySDL, Query: adversaryDoc(f, n)})
+		}
+	}
+	for _, f := range adversarySchemaFamilies {
+		for _, n := range sizes {
+			reqs = append(reqs, valReq{Kind: "load", SDL: adversarySchema(f, n)})
 		}
 	}
 	var lines [][]byte
